@@ -978,6 +978,118 @@ def directed_cascade_phase(ctx, rng, n):
         check_fixed(ctx, schema, ops, 'cascade-' + how)
 
 
+class LazyObjs:
+    """objects of a fresh session fetched by primary key only when a call names them (so that partner rows stay out of the session)"""
+    def __init__(self, w, classes, pks):
+        self.w, self.classes, self.pks = w, classes, pks
+        self.cache = {}
+    def __len__(self): return len(self.pks)
+    def __getitem__(self, i):
+        if i not in self.cache:
+            self.cache[i] = None if self.pks[i] is None else self.classes[i][self.pks[i]]
+        return self.cache[i]
+    def __iter__(self):
+        return (self[i] for i in range(len(self.pks)))
+    def append(self, o):
+        self.pks.append(('new', len(self.pks))); self.classes.append(type(o)); self.cache[len(self.pks) - 1] = o
+
+
+def directed_reload_set_phase(ctx, rng, n):
+    for _ in range(n):
+        w = _reload_set_case(ctx, rng)
+        if w is not None: w.db.disconnect()
+
+
+def _reload_set_case(ctx, rng):
+    """a one-to-one changed in a FRESH session from either side while the current partner row is not in the session
+    (object fetched on its own), through obj.set(attr=v) or obj.attr = v; both ends are then read through the public API
+    in the same session, and again in a third session after commit (link rows); the expected state is the model's"""
+    if True:
+        breq = rng.random() < 0.3
+        schema = {'nent': 2, 'rels': [{'kind': 'o2o', 'sym': False, 'a': S(0), 'b': S(1, req=breq)}]}
+        if rng.random() < 0.4:
+            schema['rels'].append({'kind': 'm2o', 'sym': False, 'a': S(0, coll=True, casc=False), 'b': S(1)})
+        w = World(schema)
+        k = rng.choice([2, 3])
+        ops = [{'k': 'create', 'e': 0, 'vals': [], 'tag': 0} for _ in range(k + 1)]                    # E0: 0..k
+        for i in range(k):                                                                             # E1: k+1..2k, partner i
+            ops.append({'k': 'create', 'e': 1, 'vals': [[[0, True], {'ref': i}]], 'tag': 0})
+        if not breq: ops.append({'k': 'create', 'e': 1, 'vals': [], 'tag': 1})                          # an E1 without partner
+        with db_session:
+            errs = [w.apply(op) for op in ops]
+            if any(errs):
+                rollback(); return w
+            commit()
+            pks = [o.get_pk() for o in w.objs]
+            classes = [type(o) for o in w.objs]
+        side = rng.choice([False, True])                      # which end the call is made on (one of them has no column)
+        colless = not w.attrs[(0, side)].columns
+        key = [0, side]
+        if not side:
+            o = rng.randrange(0, k)                                            # an E0 with a partner
+            cands = [x for x in range(k + 1, len(pks))]
+            cur = k + 1 + o
+        else:
+            o = rng.randrange(k + 1, 2 * k + 1)                                # an E1 with a partner
+            cands = list(range(0, k + 1))
+            cur = o - (k + 1)
+        v = rng.choice([x for x in cands if x != cur] + ([None] if not (side and breq) else []))
+        via = rng.choice(['set', 'set', 'assign'])
+        op = {'k': 'setMany', 'o': o, 'refs': [[key, v]], 'colls': [], 'refs_eff': [[key, v]]} if via == 'set' else {'k': 'setRef', 'o': o, 'a': key, 'v': v}
+        hist = {'schema': schema, 'ops': ops, 'commit_reload_then': [op], 'fetched_alone': True}
+        ctx.case({'reload-set': via, 'side': side, 'colless': colless, 'v': v is not None}, nontrivial=True, kind='reload-set')
+        ctx.count('reload-set:%s:%s' % (via, 'column-less-side' if colless else 'column-side'))
+        snap = None
+        with db_session:
+            w.objs = LazyObjs(w, classes, list(pks))
+            err = w.apply(op)                                  # only the target and the value are in the session
+            snap = full_read(w)
+            if snap is None:
+                try:
+                    for x in w.objs:
+                        for kk in w.ent_attrs[w.classes.index(type(x))]: getattr(x, w.names[kk])
+                    why = 'unknown'
+                except Exception as e: why = '%s: %s' % (type(e).__name__, e)
+                ctx.violation('after the call on a freshly fetched object reading both ends in the same session raises',
+                              hist, observed={'outcome': err or 'ok', 'read': why[:200]}, key='reload-set:read-raises:%s/%s' % (via, 'column-less-side' if colless else 'column-side'))
+                rollback(); return w
+            bad = ends_disagree(w, snap)
+            if bad:
+                p, kq, q, why = bad[0]
+                ctx.violation('after a call on a freshly fetched object the two ends disagree', hist,
+                              observed={'p': p, 'attr': list(kq), 'q': q, 'why': why, 'outcome': err or 'ok'},
+                              key='reload-set:ends-disagree:%s/%s' % (via, 'column-less-side' if colless else 'column-side'))
+                rollback(); return w
+            try:
+                commit(); committed = True
+            except Exception as e:
+                ctx.count('reload-set:commit-failed:' + type(e).__name__); rollback(); committed = False
+            pks2 = [(x.get_pk() if x is not None and w.alive(x) else None) for x in w.objs]
+        # the model: the same history followed by the single assignment
+        if ctx.driver.ok and err in MODEL_ERRS | {None}:
+            out = ctx.driver('C12', [{'op': 'run', 'schema': w.model_schema, 'ops': [model_op(x) for x in ops] + [{'k': 'setRef', 'o': o, 'a': key, 'v': v}]}])[0]
+            m = out['steps'][-1]
+            md = [x for x in norm_dump(m['objs']) if x['alive']]; rd = [x for x in norm_dump(snap) if x and x['alive']]
+            if (m['err'] or None) != (err or None) or md != rd:
+                ctx.divergence('state after a call on a freshly fetched object differs from the model', hist, model=[m['err'], md], impl=[err, rd])
+        if committed:
+            with db_session:
+                w.objs = LazyObjs(w, classes + [None] * 0, list(pks2))
+                got = full_read(w)
+                if got is None or [x for x in norm_dump(got) if x['alive']] != [x for x in norm_dump(snap) if x['alive']]:
+                    why = None
+                    if got is None:
+                        try:
+                            for x in w.objs:
+                                if x is not None:
+                                    for kk in w.ent_attrs[w.classes.index(type(x))]: getattr(x, w.names[kk])
+                        except Exception as e: why = '%s: %s' % (type(e).__name__, e)
+                    ctx.violation('link rows after commit differ from what both ends showed in the session (or cannot be read back)', hist,
+                                  observed=why or got, expected=snap, key='reload-set:committed-links-differ:%s/%s' % (via, 'column-less-side' if colless else 'column-side'))
+                rollback()
+        return w
+
+
 def run(ctx):
     witnesses(ctx)
     rng = ctx.rng
@@ -989,6 +1101,7 @@ def run(ctx):
     directed_phase(ctx, rng, ctx.scale(60, 200))
     directed_pk_phase(ctx, rng, ctx.scale(30, 100))
     directed_cascade_phase(ctx, rng, ctx.scale(30, 100))
+    directed_reload_set_phase(ctx, rng, ctx.scale(40, 150))
     flush_fixed(ctx)
     memory_phase(ctx, rng, ctx.scale(140, 1000), ctx.scale(14, 22))
 
